@@ -23,11 +23,15 @@ def run(chk):
                     evals += 1
                     for pred, detail in rt.roundtrip_failures(cls, b):
                         yield name, b, pred, detail, ('orig' if k == 0 else 'mut')
+            for b in rt.extra_vectors(name, rng):
+                evals += 1
+                for pred, detail in rt.roundtrip_failures(cls, b):
+                    yield name, b, pred, detail, 'orig'
         chk.coverage['class_sweep'] = {'classes': len(vectors), 'buffers': evals}
 
     def search(_br):
         for name, b, pred, detail, kind in class_sweep():
-            key = '%s/%s/%s' % (family(name), pred, kind)
+            key = rt.finding_key(family(name), name, pred, kind, b)
             if chk.known(key) is None:
                 return [('%s: %s' % (name, detail), {'class': name, 'input': b.hex(), 'predicate': pred}, key, True)]
         return []
@@ -98,7 +102,7 @@ def run(chk):
         chk.violation('model runner does not build: %s' % br.failed_file, {'error': br.error}, None, False)
     seen = set()
     for name, b, pred, detail, kind in class_sweep():
-        key = '%s/%s/%s' % (family(name), pred, kind)
+        key = rt.finding_key(family(name), name, pred, kind, b)
         if key in seen:
             continue
         seen.add(key)
